@@ -16,6 +16,7 @@ import (
 	"github.com/centrifugal/centrifuge"
 	"github.com/centrifugal/centrifuge/verifx/churn"
 	"github.com/centrifugal/centrifuge/verifx/kit"
+	"github.com/centrifugal/protocol"
 )
 
 const realTimeCases = 16 // the first cases exercise the real SSE / HTTP-stream handlers in real time
@@ -298,9 +299,222 @@ func realCase(c *kit.Case) {
 	c.Nontrivial("real-" + kind)
 }
 
+
+// timersCase: connections (unidirectional and bidirectional) whose OnConnect callback is
+// slow (it registers its handlers, then keeps running for a seeded virtual duration)
+// while the presence/alive tick (1 s) and the expiry/refresh timer (2 s) are short, with
+// disconnects of every origin landing before, inside and after the callback. A callback
+// the connect callback enables must not run until the connect callback has returned.
+func timersCase(c *kit.Case) {
+	r := c.R
+	w := kit.NewWorld(c)
+	type ev struct {
+		Seq  int64
+		Conn int
+		Kind string
+		Code uint32
+		At   string
+	}
+	type plan struct {
+		Idx    int
+		Uni    bool
+		Proto  string
+		Delay  time.Duration // how long OnConnect keeps running after registering handlers
+		Expire bool
+		End    string
+		EndAt  time.Duration
+	}
+	var mu sync.Mutex
+	var log []ev
+	start := time.Now()
+	rec := func(conn int, kind string, code uint32) {
+		mu.Lock()
+		log = append(log, ev{Seq: w.Seq(), Conn: conn, Kind: kind, Code: code, At: time.Since(start).String()})
+		mu.Unlock()
+	}
+	var byClient, byTrans sync.Map
+	cfg := centrifuge.Config{ClientPresenceUpdateInterval: time.Second, ClientExpiredCloseDelay: 2 * time.Second}
+	node, _ := w.NewNode(cfg, func(n *centrifuge.Node) {
+		n.OnConnecting(func(_ context.Context, e centrifuge.ConnectEvent) (centrifuge.ConnectReply, error) {
+			v, _ := byTrans.Load(e.Transport)
+			p, _ := v.(*plan)
+			if p == nil {
+				return kit.Creds("late"), nil
+			}
+			rep := kit.Creds(fmt.Sprintf("u%d", p.Idx))
+			if p.Expire {
+				rep.Credentials.ExpireAt = time.Now().Unix() + 2
+			}
+			if p.Uni {
+				rep.Subscriptions = map[string]centrifuge.SubscribeOptions{"c08t:ch": {EmitPresence: true}}
+			}
+			return rep, nil
+		})
+		n.OnConnect(func(cl *centrifuge.Client) {
+			v, _ := byClient.Load(cl)
+			p, _ := v.(*plan)
+			if p == nil {
+				return
+			}
+			rec(p.Idx, "connect", 0)
+			cl.OnAlive(func() { rec(p.Idx, "alive", 0) })
+			cl.OnRefresh(func(e centrifuge.RefreshEvent, cb centrifuge.RefreshCallback) {
+				rec(p.Idx, "refresh", 0)
+				cb(centrifuge.RefreshReply{ExpireAt: time.Now().Unix() + 2}, nil)
+			})
+			cl.OnSubscribe(func(e centrifuge.SubscribeEvent, cb centrifuge.SubscribeCallback) {
+				rec(p.Idx, "subscribe", 0)
+				cb(centrifuge.SubscribeReply{Options: centrifuge.SubscribeOptions{EmitPresence: true}}, nil)
+			})
+			cl.OnUnsubscribe(func(e centrifuge.UnsubscribeEvent) { rec(p.Idx, "unsubscribe", e.Code) })
+			cl.OnDisconnect(func(e centrifuge.DisconnectEvent) { rec(p.Idx, "disconnect", e.Code) })
+			if p.Delay > 0 {
+				time.Sleep(p.Delay)
+			}
+			rec(p.Idx, "connect-end", 0)
+		})
+	})
+	n := r.Range(3, 5)
+	plans := make([]*plan, n)
+	conns := make([]*kit.Conn, n)
+	var wg sync.WaitGroup
+	for i := 0; i < n; i++ {
+		p := &plan{Idx: i, Uni: i == 0 || r.Chance(1, 2), Expire: r.Chance(1, 2),
+			Delay: kit.Pick(r, []time.Duration{0, 300 * time.Millisecond, 1500 * time.Millisecond, 2500 * time.Millisecond, 4200 * time.Millisecond}),
+			End:   kit.Pick(r, []string{"", "", "client-disconnect", "transport-close", "node-disconnect"}),
+			EndAt: time.Duration(r.Range(0, 6000)) * time.Millisecond}
+		if p.Delay > 0 && p.End != "" && p.EndAt < p.Delay+50*time.Millisecond {
+			// a close that lands while the connect callback sleeps waits on the
+			// connection's connect mutex: a mutex wait freezes a virtual-time bubble
+			// (see harness/README.md), so closes of slow connections come afterwards
+			p.EndAt += p.Delay + 50*time.Millisecond
+		}
+		proto := kit.Pick(r, []centrifuge.ProtocolType{centrifuge.ProtocolTypeJSON, centrifuge.ProtocolTypeProtobuf})
+		p.Proto = string(proto)
+		plans[i] = p
+		conn := w.NewConn(node, kit.TransportOpts{Protocol: proto, Unidirectional: p.Uni})
+		conns[i] = conn
+		byClient.Store(conn.Client, p)
+		byTrans.Store(conn.T, p)
+		wg.Add(1)
+		go func() {
+			defer wg.Done()
+			if p.Uni {
+				conn.Client.Connect(centrifuge.ConnectRequest{})
+				return
+			}
+			conn.Connect(nil)
+			if !p.Expire {
+				conn.Subscribe(&protocol.SubscribeRequest{Channel: "c08t:ch"})
+			}
+		}()
+		if p.End != "" {
+			wg.Add(1)
+			go func() {
+				defer wg.Done()
+				time.Sleep(p.EndAt)
+				switch p.End {
+				case "client-disconnect":
+					conn.Client.Disconnect(centrifuge.DisconnectForceNoReconnect)
+				case "transport-close":
+					_ = conn.CloseFn()
+				case "node-disconnect":
+					_ = node.Disconnect(fmt.Sprintf("u%d", p.Idx))
+				}
+			}()
+		}
+	}
+	time.Sleep(8 * time.Second)
+	wg.Wait()
+	w.Settle()
+	w.Shutdown()
+
+	mu.Lock()
+	events := append([]ev(nil), log...)
+	mu.Unlock()
+	sig := ""
+	for _, p := range plans {
+		var mine []ev
+		for _, e := range events {
+			if e.Conn == p.Idx {
+				mine = append(mine, e)
+			}
+		}
+		detail := map[string]any{"plan": p, "callbacks_of_conn": mine, "plans": plans}
+		var begin, end, disc int64
+		nConnect, nDisc, alives := 0, 0, 0
+		kinds := ""
+		for _, e := range mine {
+			switch e.Kind {
+			case "connect":
+				nConnect++
+				begin = e.Seq
+				if nConnect > 1 {
+					c.Violation("c08-connect-callback-twice", fmt.Sprintf("conn %d: OnConnect ran %d times", p.Idx, nConnect), detail)
+				}
+			case "connect-end":
+				end = e.Seq
+			case "disconnect":
+				nDisc++
+				disc = e.Seq
+				if nDisc > 1 {
+					c.Violation("c08-disconnect-callback-twice", fmt.Sprintf("conn %d: OnDisconnect ran %d times", p.Idx, nDisc), detail)
+				}
+				if nConnect == 0 {
+					c.Violation("c08-disconnect-callback-without-connect", fmt.Sprintf("conn %d: OnDisconnect ran but OnConnect never did", p.Idx), detail)
+				}
+				if end == 0 {
+					c.Count("disconnect_callback_while_connect_callback_running", 1) // the library cannot hold a close back: counted, not judged
+				}
+			default:
+				if nConnect == 0 {
+					c.Violation("c08-callback-before-connect", fmt.Sprintf("conn %d: %s callback ran before OnConnect", p.Idx, e.Kind), detail)
+				}
+				if (e.Kind == "alive" || e.Kind == "refresh" || e.Kind == "subscribe") && begin != 0 && end == 0 {
+					c.Violation("c08-callback-while-connect-callback-still-running", fmt.Sprintf("conn %d (unidirectional=%v): the %s callback ran at %s while OnConnect (slow by %s) had not returned yet", p.Idx, p.Uni, e.Kind, e.At, p.Delay), detail)
+				}
+				if e.Kind == "alive" {
+					alives++
+					if nDisc > 0 {
+						c.Violation("c08-alive-after-disconnect", fmt.Sprintf("conn %d: OnAlive ran after OnDisconnect", p.Idx), detail)
+					}
+				}
+				if e.Kind == "refresh" {
+					c.Count("refresh_callbacks", 1)
+				}
+			}
+			if len(kinds) < 24 && (len(kinds) == 0 || kinds[len(kinds)-1] != e.Kind[0]) {
+				kinds += e.Kind[:1]
+			}
+		}
+		_ = disc
+		if nConnect > 0 && p.Delay >= time.Second {
+			if p.Uni {
+				c.Count("slow_connect_callbacks_unidirectional", 1)
+			} else {
+				c.Count("slow_connect_callbacks_bidirectional", 1)
+			}
+			if alives > 0 {
+				c.Count("alive_callbacks_after_slow_connect", alives)
+			}
+		}
+		c.Eval(1)
+		sig += fmt.Sprintf("%v/%s/%s/%s|", p.Uni, p.Delay, p.End, kinds)
+	}
+	c.Count("timer_cases", 1)
+	c.Nontrivial("timers:" + sig)
+	if c.Index < realTimeCases+24 {
+		c.Sample(map[string]any{"plans": plans, "callback_signature": sig})
+	}
+}
+
 func runCase(c *kit.Case) {
 	if c.Index < realTimeCases {
 		realCase(c)
+		return
+	}
+	if (c.Index-realTimeCases)%4 == 3 {
+		kit.RunBubble(c, func() { timersCase(c) })
 		return
 	}
 	kit.RunBubble(c, func() { bubbleCase(c) })
@@ -309,14 +523,14 @@ func runCase(c *kit.Case) {
 func TestC08(t *testing.T) {
 	kit.Main(t, kit.Spec{
 		ID: "C08",
-		Rule: fmt.Sprintf("cases 0..%d (real time): a connection made through the real SSE / HTTP-stream handler after Node.Shutdown returned must not reach OnConnect. Other cases = one virtual-time bubble each: seeded churn (2-4 connections, 1-3 channels, subscribes/unsubscribes of every kind, disconnects, presence/alive tick every virtual second), callback log with global sequence numbers, then Node.Shutdown racing 2-5 new connections plus one started after Shutdown returned. ", realTimeCases-1) +
+		Rule: fmt.Sprintf("cases 0..%d (real time): a connection made through the real SSE / HTTP-stream handler after Node.Shutdown returned must not reach OnConnect. Other cases = one virtual-time bubble each: seeded churn (2-4 connections, 1-3 channels, subscribes/unsubscribes of every kind, disconnects, presence/alive tick every virtual second), callback log with global sequence numbers, then Node.Shutdown racing 2-5 new connections plus one started after Shutdown returned. Every fourth bubble is a timers case: 3-5 unidirectional / bidirectional connections whose OnConnect registers its handlers and then keeps running for 0..4.2 virtual seconds, alive tick 1 s, connection expiry/refresh 2 s, disconnects of three origins at 0..6 s; an alive / refresh / subscribe callback that runs before OnConnect returned is a violation (a disconnect in that window is counted only). ", realTimeCases-1) +
 			"Oracle: OnConnect <=1 and before every other per-connection callback; OnDisconnect <=1 and only after OnConnect; no OnAlive after OnDisconnect; for connections still open #OnUnsubscribe(ch) + (subscribed now) == #subscriptions the client was told were established; after Shutdown: nothing registered as connected, every transport closed. Signature = order of unsubscribe/disconnect callbacks.",
 		Assumptions: []string{
 			"real-handler probes keep the stream open for up to 3 s (real time) for a late OnConnect: a slower callback would be missed, never misreported",
 			"WebSocket handler after shutdown is not probed here (it is the one handler that consults NotifyShutdown)",
 		},
 		Cases:           map[string]int{"quick": realTimeCases + 700, "thorough": realTimeCases + 14000},
-		RequireCounters: []string{"alive_callbacks", "ended_subscriptions_matched", "late_connections", "real_handler_probes_sse", "real_handler_probes_http_stream"},
+		RequireCounters: []string{"alive_callbacks", "ended_subscriptions_matched", "late_connections", "real_handler_probes_sse", "real_handler_probes_http_stream", "slow_connect_callbacks_unidirectional", "slow_connect_callbacks_bidirectional", "alive_callbacks_after_slow_connect", "refresh_callbacks"},
 		Run:             runCase,
 	})
 }
